@@ -200,7 +200,7 @@ function runOp(name, r, s, k, V){
   catch (e) { return "throw:" + ((e && e.name) || String(e)); }
 }
 
-// go(V, s, ops) -> reference dump (all agree) or "\u0001" + JSON list of mismatches (one per kind/op/variant pair)
+// go(V, s, ops, allStarts, onlyK) -> dump of the reference variant; lastBads = JSON list of mismatches (one per kind/op/variant pair) or ""
 G.go = function(V, s, ops, allStarts, onlyK){
   var L = s.length;
   var out = "";
@@ -245,7 +245,7 @@ G.go = function(V, s, ops, allStarts, onlyK){
       } catch (e) { bad("throw", "exec", k, "partner", "", String(e), ""); }
     }
   }
-  if (bads.length) return "\u0001" + JSON.stringify(bads);
+  G.lastBads = bads.length ? JSON.stringify(bads) : "";
   return out;
 };
 
